@@ -273,7 +273,8 @@ def check_pairing(A: Analysis, col: Collector, R: RunFn, rule: str, pair: str, o
         # intraprocedurally, so that refactoring makes the analysis inapplicable (exit 2),
         # not the property violated
         key = what.split("(")[0].rsplit(".", 1)[-1].strip()
-        for g in A.closure(A.callees(R.fn), limit=60):
+        direct = [g for g in A.callees(R.fn)]
+        for g in direct + [g for g in A.closure(direct, limit=200) if g not in direct]:
             if g.qualname == R.fn.qualname or g.module is not R.fn.module:
                 continue
             src = " ".join(norm(c.func, 60) for c in A.calls(g))
@@ -1199,6 +1200,10 @@ def lock_rules(A: Analysis, col: Collector, runs: list[RunFn], rule: str):
         steps = [("cache-check", R.result_calls), ("populate", R.populate_calls), ("task-body", R.task_calls), ("record_error", R.record_calls), ("save-result", R.save_calls)]
         for name, calls in steps:
             if not calls and name in ("cache-check", "populate", "save-result", "record_error"):
+                key_ = {"cache-check": ".result", "populate": "_populate_filesystem", "save-result": "save", "record_error": "record_error"}[name]
+                for g in A.callees(fn):
+                    if g.qualname != fn.qualname and g.module is fn.module and any(norm(c.func, 60).endswith(key_) or norm(c.func, 60) == key_ for c in A.calls(g)):
+                        raise AnalysisError(f"{fn.qualname}: protocol step `{name}` is not in the run function but in helper {g.qualname}; the lock-region rule is intraprocedural and cannot decide this shape")
                 col.fail(rule, fn.qualname, f"step-missing:{name}", f"protocol step `{name}` not found in the run function", A.loc(fn.node))
                 continue
             outside = [c for c in calls if not is_within(c, R.lock_with)]
@@ -1873,7 +1878,16 @@ def check_c17(A: Analysis, col: Collector):
             raise AnalysisError(f"Submitter.{name} not found")
         col.scope(fn.qualname)
         steps = []
-        for n in _ordered_nodes(fn.node):
+
+        def _inlined(node_, depth_=1):
+            """source-order nodes, with calls to private methods of the submitter replaced by the nodes of
+            the method's body (one level): extracting part of an expander into a helper changes nothing"""
+            for n_ in _ordered_nodes(node_):
+                yield n_
+                if depth_ > 0 and isinstance(n_, ast.Call) and isinstance(n_.func, ast.Attribute) and dotted(n_.func.value) == "self" and n_.func.attr.startswith("_") and n_.func.attr in sub.methods and n_.func.attr not in ("_check_locks",):
+                    yield from _inlined(sub.methods[n_.func.attr].node, depth_ - 1)
+
+        for n in _inlined(fn.node):
             if isinstance(n, ast.Call) and isinstance(n.func, ast.Attribute):
                 a = n.func.attr
                 if a in ("construct", "execution_graph", "get_runnable_tasks"):
@@ -2049,10 +2063,15 @@ def _record_is_filled_by_submitter(A: Analysis, ev: ast.Compare) -> bool:
         for c in A.calls(f):
             if isinstance(c.func, ast.Attribute) and c.func.attr in ("add", "update") and isinstance(c.func.value, ast.Attribute) and c.func.value.attr == attr:
                 adders.setdefault(f.qualname, []).append(c)
-    if set(adders) != {f"{sub.qualname}.expand_workflow", f"{sub.qualname}.expand_workflow_async"}:
+    expanders = {f"{sub.qualname}.expand_workflow", f"{sub.qualname}.expand_workflow_async"}
+    # the record may be filled in the expanders themselves or in private methods of the submitter they call
+    helpers = {f"{sub.qualname}.{c.func.attr}" for nm in ("expand_workflow", "expand_workflow_async") for c in A.calls(sub.find_method(nm)) if isinstance(c.func, ast.Attribute) and dotted(c.func.value) == "self" and c.func.attr in sub.methods}
+    if not set(adders) or not set(adders) <= (expanders | helpers):
         return False
-    for name in ("expand_workflow", "expand_workflow_async"):
-        fn = sub.find_method(name)
+    if not (set(adders) & expanders) and not (set(adders) & helpers):
+        return False
+    for qn in sorted(adders):
+        fn = A.repo.functions[qn]
         fetched = {e.id for a_ in walk_own(fn.node) if isinstance(a_, ast.Assign) and any(isinstance(c, ast.Call) and isinstance(c.func, ast.Attribute) and c.func.attr == "fetch_finished" for c in ast.walk(a_.value)) for t in a_.targets for e in (t.elts if isinstance(t, ast.Tuple) else [t]) if isinstance(e, ast.Name)}
         for c in adders[fn.qualname]:
             st = next(p_ for p_ in parents(c) if isinstance(p_, ast.stmt))
@@ -2096,6 +2115,20 @@ def status_source_rule(A: Analysis, col: Collector, rule: str):
     col.scope(us.qualname)
     loops = [l for l in walk_own(us.node) if isinstance(l, ast.For) and any(isinstance(a, ast.Attribute) and a.attr == "queued" for a in ast.walk(l.iter))]
     A.anchor("loop over self.queued in NodeExecution.update_status", loops)
+    # the lookup may have been extracted into a private method of NodeExecution that returns (is_done, errored):
+    # then the rule is applied to the helper's own binding, and the tuple unpacked from its call inherits the verdict
+    helper_guard = None
+    necls = us.cls
+    for c_ in A.calls(us):
+        if isinstance(c_.func, ast.Attribute) and dotted(c_.func.value) == "self" and necls is not None and c_.func.attr in necls.methods and c_.func.attr != us.name:
+            h_ = necls.methods[c_.func.attr]
+            for n_ in walk_own(h_.node):
+                if isinstance(n_, ast.Assign) and isinstance(n_.value, ast.BoolOp) and isinstance(n_.value.op, ast.And) and any(isinstance(v, ast.Attribute) and v.attr == "done" for v in n_.value.values):
+                    ev_ = [v for v in n_.value.values if not (isinstance(v, ast.Attribute) and v.attr in ("done", "errored"))]
+                    first_done_ = min(i for i, v in enumerate(n_.value.values) if isinstance(v, ast.Attribute) and v.attr == "done")
+                    if ev_ and n_.value.values.index(ev_[0]) < first_done_ and evidence_is_set_by_submitter(A, ev_[0]):
+                        helper_guard = (h_, norm(ev_[0]))
+                        col.scope(h_.qualname)
     for lp in loops:
         # names bound from `<job>.done` (directly or in try/else)
         # names bound from the cache lookup `<job>.done`; a binding `<evidence> and <job>.done`, where the
@@ -2119,6 +2152,13 @@ def status_source_rule(A: Analysis, col: Collector, rule: str):
                             guarded_vars[nm] = norm(ev[0])
                     else:
                         done_vars |= names
+        if helper_guard is not None:
+            for n in ast.walk(lp):
+                if isinstance(n, ast.Assign) and isinstance(n.value, ast.Call) and isinstance(n.value.func, ast.Attribute) and n.value.func.attr == helper_guard[0].name:
+                    for t in n.targets:
+                        for e in (t.elts if isinstance(t, ast.Tuple) else [t]):
+                            if isinstance(e, ast.Name):
+                                guarded_vars[e.id] = helper_guard[1]
         # an exception flag set in the handler of the same lookup inherits the lookup's guard
         for n in ast.walk(lp):
             if isinstance(n, ast.Try) and any(isinstance(b, ast.Assign) and any(isinstance(t, ast.Name) and t.id in guarded_vars for t in b.targets) for b in n.body):
